@@ -115,6 +115,9 @@ func genECases(r *Rng, tier string, n int) []corrCase {
 				w.Flush()
 			default:
 				fam, d := RandPayload(r, mx)
+				if huff && r.Intn(3) == 0 { // deepest codes adjacent in the scalar tail of the byte encoder
+					fam, d = "steeptail", Payload(r, "steeptail", r.Pick([]int{300, 3000, 33000, 40000}))
+				}
 				if len(d) > 200000 {
 					d = d[:200000]
 				}
@@ -133,9 +136,9 @@ func genECases(r *Rng, tier string, n int) []corrCase {
 		}
 		d := fmt.Sprintf("L%d win4k=%v %s", lvl, win4k, strings.Join(desc, ","))
 		// ---- cut the destination writes into blocks
-		q := 0        // data bytes covered by the blocks so far
-		lastG := 0    // match-finder events consumed so far
-		emitted := 0  // bytes at the destination before the current write
+		q := 0       // data bytes covered by the blocks so far
+		lastG := 0   // match-finder events consumed so far
+		emitted := 0 // bytes at the destination before the current write
 		carryLen, carryBits := 0, uint64(0)
 		prevBlocks := 0
 		for _, op := range ops {
